@@ -116,6 +116,17 @@ def oracle_family(ctx, fam, rng, problems):
     if fam.box is None:
         if pb is not None and w.bounding_box is None:
             problems.append((f"{name}: pixel_bounds {pb} without a bounding box", {}))
+        # ... also when the image size is known: pixel_bounds is the bounding box, not the data extent
+        if w.bounding_box is None and not isinstance(w.pipeline[0].frame, str) and not name.startswith("cube3d_fixed"):
+            old_shape = w.pixel_shape
+            try:
+                w.pixel_shape = tuple(7 + k for k in range(w.pixel_n_dim))
+                pb2 = w.pixel_bounds
+                if pb2 is not None:
+                    problems.append((f"{name}: pixel_bounds is {pb2} although no bounding box is set (pixel_shape {w.pixel_shape})",
+                                     {"pixel_shape": list(w.pixel_shape)}))
+            finally:
+                w.pixel_shape = old_shape
     else:
         if pb is None or [tuple(map(float, b)) for b in pb] != [tuple(map(float, b)) for b in fam.box]:
             problems.append((f"{name}: pixel_bounds {pb} != bounding box {fam.box}", {}))
